@@ -254,6 +254,7 @@ def stepNsec3 (st : State) (w : List String) : State × String :=
   match w with
   | "h" :: "new" :: _ => ({ st with h := {} }, "unmodelled")
   | "h" :: "ring" :: _ => (st, "unmodelled")
+  | "h" :: "memo" :: _ => (st, "unmodelled")
   | "h" :: "table" :: _ => (st, "unmodelled")
   | ["h", "set", rs] =>
     if rs == "-" then ({ st with h := { set := [] } }, "n=0") else
